@@ -30,6 +30,12 @@ RULE = ("cases cycle through all 21 (ExchangeId, SubKind) arms of DynamicStreams
         "123456789012.12345678, 99999999999.99999999, 31415.92653589793), amount 0 (`0`, `0.0`, `0.000`) in 15 % of the items; exchange times from base 0 / 1000 / 1.7e12 / 4.1e12 ms, "
         "each item equal to the previous one (40 %), one step less, one step more, or a jump; batches of 0 / 1 / 2 / 3 / 5 trades; Bitfinex channel ids from 0 and u32::MAX. "
         "corpus/C13/domain.ops holds one hand-written case per class. "
+        "After that a separately seeded CONFIGURATION-SHAPE family of N/5 cases (ids `<n>-cfgk-..`; all earlier cases unchanged), cycling over the 21 pairs: a `keys` line before "
+        "the `sub` gives the instruments the keys a global InstrumentIndex would (reversed positions, positions + 1 / 7 / 1000, a shuffled sparse subset of 0..60, 10^15 + ..; "
+        "pairwise distinct), 2-6 instruments with pairwise distinct venue symbols, formatted 50 % / verbatim 50 %, Bitfinex confirmations in reverse subscription order, 3-7 messages "
+        "(80 % a subscribed market). In ALL cases the Binance L2 transformers are initialised with one snapshot per subscribed instrument in SUBSCRIPTION order (the instrument map "
+        "iterates in hash order), each at a sequence derived from its own market's name (100, 110 .. 180), and the update of a message is numbered from the market the message "
+        "names: it is a valid first update only if the transformer put that market's snapshot under the instrument. corpus/C13/cfg_keys.ops holds hand-written cases. "
         "A case is distinct by the SHA-1 of its op lines and non-trivial when the implementation's trace shows at least two different "
         "observation blocks")
 ASSUMPTIONS = [
@@ -42,8 +48,12 @@ ASSUMPTIONS = [
     "(the code identifies the batch by its first trade); an empty batch names no market and yields nothing",
     "Bitfinex: the channel-id re-keying of BitfinexWebSocketSubValidator::validate (needs a live socket) is applied to the instrument map directly "
     "from a deserialised `subscribed` event; the venue confirms each symbol at most once and under pairwise distinct channel ids",
-    "Binance L2: each update is given to a freshly initialised transformer (snapshot sequence 100) as a valid first update, with at most one "
-    "level per side; sequencing and book sorting are C06/C05",
+    "Binance L2: each update is given to a freshly initialised transformer (one empty snapshot per subscribed instrument, in subscription order, at a per-market sequence "
+    "100 .. 180) as a valid first update for the market it names, with at most one level per side; sequencing and book sorting are C06/C05",
+    "instrument keys of the keyed representations are pairwise distinct (`keys` line; default key = position). The model works on positions and the drivers relabel position k as "
+    "the k-th key: the code is generic in the key type (bounds Debug + Clone + Eq), so along an injective key assignment nothing but the printed key can change. TWO instruments "
+    "under ONE key (a non-injective assignment, legal in the API) are not driven: the Binance L2 transformers look their initial snapshots up BY KEY (spot/l2.rs:99-101), "
+    "so two books sharing a key would both start from the first snapshot found - reported as open by the configuration-shape audit",
     "prices/amounts are multiples of 1/8 (exact in f64 and Decimal; f64 parsing is not modelled); Kraken times are multiples of 125 ms "
     "(its seconds-as-f64 timestamps are then exact); the sign of PublicTrade.amount is not constrained by the spec (see LEVEL_NOTE): it is an "
     "observation (`amt`, `sgn`) compared between code and model only; theorem amount_sign_convention states the convention per connector",
